@@ -379,10 +379,15 @@ TwinC(e, pre, post) ==
      \o Cl("C13.twin_payload", TRUE, \A k \in DOMAIN e.a.a : pre[e.a.a[k]].p = pre[e.a.a[k]].q)
 
 ---------------------------------------------------------------------------
+\* ==: "exactly equal" - objects that compare equal report the same text and settings; a copy compares equal
 EqC(e, pre, post) ==
-  IF e.tag = "probe_copy_eq"
-  THEN Cl("C08.copy_compares_equal", TRUE, e.out = "ok" /\ e.o.eq = 1)
-  ELSE None
+  LET x == pre[e.r] y == pre[e.a.other] IN
+     (IF e.tag = "probe_copy_eq" THEN Cl("C08.copy_compares_equal", TRUE, e.out = "ok" /\ e.o.eq = 1) ELSE None)
+  \o Cl("C08.eq_defined", TRUE, e.out = "ok")
+  \o (IF e.out = "ok" /\ x.k = "S" /\ y.k = "S"
+      THEN Cl("C08.equal_objects_report_the_same", e.o.eq = 1 /\ HasStyle(x), e.o.eq = 1 => (EquivVal(x, y) /\ x.q = y.q))
+        \o Cl("C08.eq_reflexive", e.r = e.a.other, e.r = e.a.other => e.o.eq = 1)
+      ELSE None)
 
 ---------------------------------------------------------------------------
 OpClauses(e, pre, post) ==
@@ -398,6 +403,7 @@ OpClauses(e, pre, post) ==
     [] e.op = "remove" -> RemoveC(e, pre, post)
     [] e.op = "clear"  -> ClearC(e, pre, post)
     [] e.op = "eq"     -> EqC(e, pre, post)
+    [] e.op = "noop"   -> None
     [] e.op = "render" -> RenderC(e, pre, post)
     [] e.op = "reparse" -> ReparseC(e, pre, post)
     [] e.op = "simplify" -> SimplifyC(e, pre, post)
